@@ -123,7 +123,7 @@ impl Property for C01 {
         "C01"
     }
     fn rule(&self) -> String {
-        "cases: (a) ALL sequences of <=3 token classes of a 64-class alphabet (keywords, brackets, operators, identifier kinds, literals, trivia, lexer-error lexemes; thorough adds all length-4 sequences over a 42-class reduced alphabet) in 6 syntactic contexts, rendered concatenated and space-separated; (b) corpus + repo fixtures under token/char damage and truncation; (c) random strings from a weighted Unicode/keyword alphabet; (d) grammar-generated programs with random trivia. Oracle: preorder leaf walk == input bytes, ranges non-empty/contiguous/0..len, next_token chain identical, root range 0..len. Non-trivial = input has >=1 syntax error, or non-ASCII, or CR, or a comment; distinct by hash of the text (enumerated cases are sharded by text hash, so per-shard distinct counts add up exactly).".into()
+        "cases: (a) ALL sequences of <=3 token classes of a 64-class alphabet (keywords, brackets, operators, identifier kinds, literals, trivia, lexer-error lexemes; thorough adds all length-4 sequences over a 42-class reduced alphabet) in 7 syntactic contexts, rendered concatenated and space-separated; (b) corpus + repo fixtures under token/char damage and truncation; (c) random strings from a weighted Unicode/keyword alphabet; (d) grammar-generated programs with random trivia. Oracle: preorder leaf walk == input bytes, ranges non-empty/contiguous/0..len, next_token chain identical, root range 0..len. Non-trivial = input has >=1 syntax error, or non-ASCII, or CR, or a comment; distinct by hash of the text (enumerated cases are sharded by text hash, so per-shard distinct counts add up exactly).".into()
     }
     fn assumptions(&self) -> Vec<String> {
         vec![
